@@ -47,13 +47,13 @@ ASSUMPTIONS = [
     "split faces (faces/hdr_faces lumps) reference an orig face and a texinfo (None is written as -1, which the reader uses as a Python "
     "index from the end); faces sharing an orig face share texinfo and hammer id; hammer ids are non-zero ints; faces and hdr_faces are "
     "position-aligned (one FACEIDS array); orig faces carry the texinfo/id of their split faces (the reader copies them over)",
-    "entity keys contain no quote/backslash/newline (keys are written unescaped); values contain no 0x1b, not exactly four commas, and "
-    "are not the single NUL (reader heuristics); output fields do not contain the separator in use, quotes or ';'; output delays have at "
+    "entity values contain no 0x1b, not exactly four commas, and are not the single NUL (reader heuristics: such a value is taken "
+    "for an output / the end marker); keys and values are ASCII or surrogate-escaped bytes; output fields do not contain the separator in use, quotes or ';'; output delays have at "
     "most 6 significant digits ('%g')",
     "flag values use bits 0..30 (BSPContents/SurfFlags are packed as signed 'i': bit 31 is rejected with struct.error — an error, "
     "not a truncation); VisLeaf.area <= 255; static-prop flags beyond what the version stores are not generated",
-    "the static-prop game-lump header version and BSP.static_prop_version are set together by the caller (the writer does not touch the "
-    "header); on re-read static_prop_version is preset (version 11 / 80 bytes is ambiguous between V11 and Black Mesa in v20 files)",
+    "on re-read BSP.static_prop_version is preset for the field comparison; auto-detection from (header version, record size) is checked "
+    "separately for every version except V11/Black-Mesa (11, 80 bytes: ambiguous by design, resolved by the BSP version)",
     "native-order formats ('i', 'ii', 'fff', 'H'*n) are laid out like '<' ones: little-endian machine, checked at run time",
     "model names end in a non-NUL byte (the reader strips trailing NULs of the 128-byte field)",
 ]
@@ -786,6 +786,109 @@ def _run_probe(tmp, cfg, pv, size, wseed, key, views, fn):
     return 'exact'
 
 
+# =============================================================================== class probes
+# Hand-built minimal inputs for value classes just outside the generator's domain (see ASSUMPTIONS):
+# each returns None when the property holds on it (exact round trip or an exception at save time),
+# otherwise a description.  Keys are the ones used in known_findings.d/C11.json.
+
+def _class_probes():
+    from srctools.bsp import (BSP, Plane, Face, TexData, TexInfo, VisLeaf, VisTree, VisLeafFlags, StaticProp,
+                              StaticPropVersion)
+    from srctools.const import SurfFlags, BSPContents
+    from srctools.math import Vec
+    from srctools.vmf import Entity, Output
+
+    def cycle(tmp, cfg, setup):
+        bsp = W.open_config(cfg, tmp, 'cls')
+        setup(bsp)
+        out = os.path.join(tmp, 'cls_out.bsp')
+        try:
+            bsp.save(out)
+        except Exception:
+            return None
+        return BSP(out)
+
+    def ent_key(tmp):
+        def setup(b):
+            e = Entity(b.ents); e['classname'] = 'info_target'; e['we"ird'] = 'val'; b.ents.add_ent(e)
+        try:
+            c = cycle(tmp, 'v20', setup)
+            if c is None:
+                return None
+            got = [sorted(e.items()) for e in c.ents.entities]
+        except Exception as e:
+            return f'entity key containing a double quote is written unescaped; re-reading the lump raises {type(e).__name__}'
+        return None if got == [[('classname', 'info_target'), ('we"ird', 'val')]] else f'entity key with a quote read back as {got}'
+
+    def out_delay(tmp):
+        def setup(b):
+            e = Entity(b.ents); e['classname'] = 'logic_relay'
+            e.add_out(Output('OnTrigger', 'tgt', 'Fire', '', 0.1234567)); b.ents.add_ent(e)
+        c = cycle(tmp, 'v20', setup)
+        if c is None:
+            return None
+        d = [o.delay for e in c.ents.entities for o in e.outputs]
+        return None if d == [0.1234567] else f'output delay 0.1234567 read back as {d} (written with %g)'
+
+    def sprp_header(tmp):
+        def setup(b):
+            b.game_lumps[b'sprp'].version = 11        # e.g. a CS:GO map whose props were never parsed
+            b.props = [StaticProp('models/a.mdl', Vec(1, 2, 3))]
+        try:
+            c = cycle(tmp, 'v21', setup)
+            if c is None:
+                return None
+            got = [p.model for p in c.props]
+        except Exception as e:
+            return f'assigning props on a BSP whose sprp header says v11 writes V5 records under the v11 header: re-read raises {type(e).__name__}: {e}'
+        return None if got == ['models/a.mdl'] else f'props read back as {got}'
+
+    def chaos_bounds(tmp):
+        def setup(b):
+            pl = Plane(Vec(1, 0, 0), 5.0)
+            leaf = VisLeaf(BSPContents.EMPTY, 0, 0, VisLeafFlags.NONE, Vec(0.5, 1.25, 2), Vec(3.75, 4, 5), [], [], -1)
+            n = VisTree(pl, Vec(0.5, 0.5, 0.5), Vec(9.5, 9, 9), [], 0)
+            n.child_neg = n.child_pos = leaf
+            b.planes, b.visleafs, b.nodes = [pl], [leaf], [n]
+        c = cycle(tmp, 'chaos', setup)
+        if c is None:
+            return None
+        got = (tuple(c.nodes[0].mins), tuple(c.visleafs[0].mins))
+        return None if got == ((0.5, 0.5, 0.5), (0.5, 1.25, 2.0)) else \
+            f'Chaos layout stores node/leaf bounds as floats, but the writer applies int(): (0.5,0.5,0.5)/(0.5,1.25,2) read back as {got}'
+
+    def fixed_bytes(tmp):
+        def setup(b):
+            pl = Plane(Vec(1, 0, 0), 5.0)
+            b.planes = [pl]
+            b.orig_faces = [Face(pl, True, False, [], None, -1, 0, b'\1\2\3\4\5', 0, 1.0, (0, 0), (1, 1), None, [], True, 0, None, 0)]
+        c = cycle(tmp, 'v20', setup)
+        if c is None:
+            return None
+        got = c.orig_faces[0].light_styles
+        return None if got == b'\1\2\3\4\5' else f'Face.light_styles of 5 bytes silently cut to {got!r} (4s field, no length check; same for VisLeaf._ambient / 24s)'
+
+    def face_none(tmp):
+        def setup(b):
+            pl = Plane(Vec(1, 0, 0), 5.0)
+            td = TexData('a', Vec(1, 1, 1), 4, 4)
+            ti = TexInfo(Vec(), 0.0, Vec(), 0.0, Vec(), 0.0, Vec(), 0.0, SurfFlags.NONE, td)
+            mk = lambda: Face(pl, True, False, [], None, -1, 0, bytes(4), 0, 1.0, (0, 0), (1, 1), None, [], True, 0, None, 0)
+            b.planes, b.texinfo, b.orig_faces, b.faces = [pl], [ti], [mk()], [mk()]
+        try:
+            c = cycle(tmp, 'v20', setup)
+            if c is None:
+                return None
+            f = c.faces[0]
+        except Exception as e:
+            return f'split face with orig_face=None/texinfo=None: re-read raises {type(e).__name__}'
+        return None if f.orig_face is None and f.texinfo is None else \
+            'split face with orig_face=None and texinfo=None is written with index -1, read back as orig_faces[-1] / texinfo[-1]'
+
+    return [('ent-key-unescaped', ent_key), ('ent-output-delay-precision', out_delay), ('sprp-header-version', sprp_header),
+            ('chaos-float-bounds-truncated', chaos_bounds), ('fixed-bytes-truncated', fixed_bytes), ('face-none-refs', face_none)]
+
+
 # =============================================================================== search
 
 def _witness_world(ctx, res):
@@ -864,6 +967,15 @@ def search(ctx):
                 break
         if tried == 0:
             ctx.notes.append(f'probe {key}: no applicable world generated')
+    # 3b. value classes just outside the generator's domain
+    for key, fn in _class_probes():
+        try:
+            r = fn(tmp)
+        except Exception as e:
+            r = f'class probe raised {type(e).__name__}: {e}'
+        ctx.count(f'class:{key}:' + ('holds' if r is None else 'FAILS'))
+        if r is not None:
+            ctx.witness(key, r, {'class': key})
     # 4. neighbours of model/implementation disagreements: re-run those worlds with other seeds
     for d in ctx.disagreements[:5]:
         case = d.get('case') or {}
@@ -888,6 +1000,11 @@ def replay(ctx, payload):
     inp = payload.get('input') or {}
     tmp = tempfile.mkdtemp(prefix='c11_replay_')
     try:
+        if 'class' in inp:
+            fn = dict(_class_probes())[inp['class']]
+            r = fn(tmp)
+            print('class', inp['class'], '->', r)
+            return r is None
         if 'probe' in inp:
             P = {k: (v, f) for k, v, f in _probes()}
             views, fn = P[inp['probe']]
